@@ -50,6 +50,15 @@ def model_check(rep, thorough):
                                   props="WatchReturns CancelLeadsToReturn OffersAreTaken"), timeout=1800, heap="16g")
     C.tlc_must_pass(r, "HmsCores liveness with a watcher")
     rep.add_tlc(r)
+    if thorough:
+        # joins and a watcher at the same time
+        r = C.run_tlc("HmsCores", cfg(cores=3, spawns=2, calls=1, joins=2, watch="fixed", props="JoinEndsAfterThread"), timeout=1800, heap="16g")
+        C.tlc_must_pass(r, "HmsCores safety with joins and a watcher")
+        rep.add_tlc(r)
+        r = C.run_tlc("HmsCores", cfg(spec="FairSpecW", cores=2, spawns=1, calls=1, joins=1, watch="fixed", invs="",
+                                      props="JoinsEnd WatchReturns CancelLeadsToReturn OffersAreTaken"), timeout=1800, heap="16g")
+        C.tlc_must_pass(r, "HmsCores liveness with joins and a watcher")
+        rep.add_tlc(r)
     r = C.run_tlc("HmsCores", cfg(cores=2, spawns=1, calls=1, watch="orig", invs="NoCoreStranded"), timeout=600)
     if r.ok:
         raise C.Machinery("HmsCores: the watcher as found is not refuted (vacuous property?)")
